@@ -143,7 +143,8 @@ impl<'a, F> Entries<'a, F> {
         let mut entries = Entries { order, minialloc, stack: Vec::new() };
         match order {
             EntriesOrder::Nonrecursive => {
-                entries.stack_left_spine(&parent_path, start);
+                let guard = minialloc.read().unwrap();
+                entries.stack_left_spine(&guard, &parent_path, start);
             }
             EntriesOrder::Preorder => {
                 entries.stack.push((parent_path, start, false));
@@ -152,8 +153,15 @@ impl<'a, F> Entries<'a, F> {
         entries
     }
 
-    fn stack_left_spine(&mut self, parent_path: &Path, mut current_id: u32) {
-        let minialloc = self.minialloc.read().unwrap();
+    /// The caller passes in the (already locked) `MiniAllocator`; taking the
+    /// read lock again here, while the caller still holds it, would deadlock
+    /// as soon as another thread is waiting for the write lock.
+    fn stack_left_spine(
+        &mut self,
+        minialloc: &MiniAllocator<F>,
+        parent_path: &Path,
+        mut current_id: u32,
+    ) {
         while current_id != consts::NO_STREAM {
             self.stack.push((parent_path.to_path_buf(), current_id, true));
             current_id = minialloc.dir_entry(current_id).left_sibling;
@@ -170,13 +178,17 @@ impl<'a, F> Iterator for Entries<'a, F> {
             let dir_entry = minialloc.dir_entry(stream_id);
             let path = join_path(&parent, dir_entry);
             if visit_siblings {
-                self.stack_left_spine(&parent, dir_entry.right_sibling);
+                self.stack_left_spine(
+                    &minialloc,
+                    &parent,
+                    dir_entry.right_sibling,
+                );
             }
             if self.order == EntriesOrder::Preorder
                 && dir_entry.obj_type != ObjType::Stream
                 && dir_entry.child != consts::NO_STREAM
             {
-                self.stack_left_spine(&path, dir_entry.child);
+                self.stack_left_spine(&minialloc, &path, dir_entry.child);
             }
             Some(Entry::new(dir_entry, path))
         } else {
